@@ -503,10 +503,10 @@ def _c4(P):
 """)
 
 
-# Delay-only mutants. s1 DELAYS the removal within the slack the stream has to grant on a loaded machine
-# (must-be-gone = expired for 10 intervals + 500 ms, re-checked after another 10 intervals + 400 ms;
-# interval-ignored = median latency above 3 intervals + 200 ms): it is expected to be missed and is not part of
-# the default set.
+# Delay-only mutants: they DELAY the removal within the slack the stream has to grant on a loaded machine
+# (must-be-gone = expired for 10 intervals + 500 ms, re-checked after another 10 intervals + 400 ms); a tighter
+# latency monitor produced a false positive under load and is a distribution tag only (median-latency:*). They
+# are expected to be missed and are not part of the default set.
 SLOW = {}
 
 
@@ -535,7 +535,7 @@ def _s1(P):
 """)
 
 
-@mutant('s2', 'ExpireInterval below 500 ms is clamped to 500 ms (caught only by interval-ignored, in roughly one of ten cases)')
+@slow('s2', 'ExpireInterval below 500 ms is clamped to 500 ms')
 def _s2(P):
     P('engine.go', """	ticker := time.NewTicker(interval)""", """	if interval < 500*time.Millisecond {
 		interval = 500 * time.Millisecond
